@@ -2,7 +2,7 @@
    observation satisfies the model-free spec, and is never an error value. *)
 From Coq Require Import NArith ZArith Bool List Lia ZifyBool.
 From CppUVerif Require Import lib.Str C13_Text C13_Alloc C13_Model C13_Proofs C13_Main C13_Pool C13_PoolProofs C13_Life C13_LifeProofs
-                              C13_LifeProofs2 C13_LifeSplit.
+                              C13_LifeProofs2 C13_LifeSplit C13_Loose C13_Chain.
 Import ListNotations.
 Local Open Scope N_scope.
 
